@@ -43,9 +43,17 @@ class Meta:
         self.a, self.k = a, k
 
     def __repr__(self):
+        def stable(y):
+            # sets (union members) are rendered in sorted order: the iteration order of two equal frozensets of classes may differ
+            if isinstance(y, (set, frozenset)):
+                return "{" + ", ".join(sorted(stable(e) for e in y)) + "}"
+            if isinstance(y, (tuple, list)):
+                return "(" + ", ".join(stable(e) for e in y) + ")"
+            return repr(y)
+
         def n(x):
             try:
-                return repr(norm(x))
+                return stable(norm(x))
             except Exception:  # noqa: BLE001
                 return repr(x)
 
